@@ -310,3 +310,38 @@ claim(
     "outside the property.",
     "DESIGN.md section 5 C04",
 )
+
+claim(
+    "C18",
+    "FLOW",
+    "static: dominance/ordering of the inheritance cut-offs and shape of the block-stack selection",
+    "Clauses: extends builds the stacks from the current template, renders the base and ends "
+    "every path in raise StopRender, which render_with_context* turns into break (nothing after "
+    "extends renders except through blocks); each parent name is tested against and added to a "
+    "fresh `seen` set before it is loaded, with TemplateInheritanceError on repeat, and the walk "
+    "moves strictly upwards; too-many-extends and duplicate-block raises precede _store_blocks; "
+    "BlockTag.parse rejects a mismatched endblock name; stacks are per block name, leaf first, "
+    "linked parentwards; a block renders block_stack[0] with parent = that item's parent and "
+    "block.super renders exactly one step up; RequiredBlockError is raised on the direct and the "
+    "stacked path before rendering and `required` is cleared only under a more derived override.",
+    "Not decided: the output of particular chains (value level). Sync/async parity: C01. Rules "
+    "are anchored on the current structure of extends_tag.py.",
+    "DESIGN.md section 5 C18",
+)
+
+claim(
+    "C24",
+    "FLOW",
+    "static: lock coverage of every shared-map access, eager materialisation under the lock, structural LRU-order conditions",
+    "Clauses: each LRUCache method that touches the shared OrderedDict is overridden in "
+    "ThreadSafeLRUCache with every access inside `with self._lock` (get delegates to the locked "
+    "__getitem__; a single len() is GIL-atomic); every override whose base returns a lazy view "
+    "(reversed/iter) copies it into a list while the lock is held, so listing cannot observe a "
+    "concurrent mutation; reads move the key to the recent end, writes of an existing key move "
+    "it, a new key evicts popitem(last=False) iff len >= capacity before inserting, listings are "
+    "reversed (most recent first), capacity >= 1; the caching loaders build the thread-safe "
+    "variant when asked.",
+    "Not decided: the complete sequential LRU semantics over operation histories (value level); "
+    "fairness/liveness of the lock.",
+    "DESIGN.md section 5 C24",
+)
